@@ -12,10 +12,16 @@ import sys
 
 VERIF = os.path.dirname(os.path.dirname(os.path.abspath(__file__)))
 REPO = "/repo"
+ENV = dict(os.environ)
+for a in sys.argv[1:]:
+    # --repo=<scratch worktree>: iterate without touching /repo (own fact cache and output dir); results are not recorded
+    if a.startswith("--repo="):
+        REPO = a.split("=", 1)[1]
+        ENV.update(VCHECK_REPO=REPO, VCHECK_WORK=REPO.rstrip("/") + "-vwork", VCHECK_OUT=REPO.rstrip("/") + "-vout")
 
 
 def sh(cmd, cwd=VERIF):
-    return subprocess.run(cmd, shell=True, cwd=cwd, text=True, stdout=subprocess.PIPE, stderr=subprocess.STDOUT)
+    return subprocess.run(cmd, shell=True, cwd=cwd, text=True, stdout=subprocess.PIPE, stderr=subprocess.STDOUT, env=ENV)
 
 
 def run_check(prop, tier):
@@ -68,7 +74,7 @@ def main():
         fired = sorted(p for p, v in res.items() if v[1] == "fired")
         result = {"target": target, "tier": tier, "target_fired": res[target][1] == "fired", "fired": fired,
                   "reports": {p: v[2] for p, v in res.items() if v[1] != "silent"}, "status": {p: v[1] for p, v in res.items()}}
-        if "--only-target" not in sys.argv:
+        if "--only-target" not in sys.argv and REPO == "/repo":
             json.dump(result, open(os.path.join(d, "result.json"), "w"), indent=1)
         print("%-14s target %s: %-6s  all fired: %s" % (rel, target, res[target][1], " ".join(fired)))
         for p in fired:
